@@ -58,14 +58,7 @@ def free_call(m: 'M.Machine', node: dict, callee: 'M.FuncRef', arg_nodes: List[d
         if not isinstance(pump, M.PumpV):
             raise Unsupported('dzn::shell without a pump')
         fv = m.to_funcv(m.args_of([arg_nodes[1]])[0])
-        pump.in_dispatcher += 1
-        m.trace.append(('shell-enter', pump.label))
-        try:
-            return m.call_funcv(fv, [], 'dzn::shell')
-        finally:
-            pump.in_dispatcher -= 1
-            pump.executed += 1
-            m.trace.append(('shell-leave', pump.label))
+        return m.do_shell(pump, fv)
     if name == 'connect':
         m.args_of(arg_nodes)
         m.trace.append(('connect',))
@@ -135,6 +128,7 @@ def member_call(m: 'M.Machine', node: dict, obj_loc: 'M.Loc', name: str, arg_nod
                 raise M.CppThrow('std::out_of_range', 'map::at')
             return obj.items[args[0]]
         if name == 'insert_or_assign':
+            m.note_access(obj_loc, True)
             obj.items[args[0]] = M.Loc(args[1], f'map[{args[0]}]')
             return None
         if name == 'size':
@@ -148,6 +142,7 @@ def member_call(m: 'M.Machine', node: dict, obj_loc: 'M.Loc', name: str, arg_nod
                 raise M.CppThrow('std::bad_optional_access', 'value')
             return M.Loc(obj.val, 'optional-value')
         if name == 'reset':
+            m.note_access(obj_loc, True)
             obj.has, obj.val = False, None
             return None
         if name == 'operator bool':
@@ -191,8 +186,7 @@ def member_call(m: 'M.Machine', node: dict, obj_loc: 'M.Loc', name: str, arg_nod
             return obj.what
     if isinstance(obj, M.PumpV) and name == 'operator()':
         fv = m.to_funcv(m.args_of(arg_nodes)[0])
-        obj.queue.append(fv)
-        m.trace.append(('post', obj.label))
+        m.do_post(obj, fv)
         return None
     raise Unsupported(f'method {name} on {type(obj).__name__}')
 
@@ -252,6 +246,7 @@ def operator_call(m: 'M.Machine', node: dict, op: str, arg_nodes: List[dict], wa
             m.store(lhs, m.to_funcv(rhs))
             return lhs
         if isinstance(cur, M.OptV):
+            m.note_access(lhs, True)
             rhs = m.args_of([rhs_node])[0]
             if isinstance(rhs, M.Loc):
                 inner = m.load(rhs)
@@ -283,8 +278,7 @@ def operator_call(m: 'M.Machine', node: dict, op: str, arg_nodes: List[dict], wa
             return m.call_funcv(M.FuncV('closure', obj), m.args_of(rest), 'lambda')
         if isinstance(obj, M.PumpV):
             fv = m.to_funcv(m.args_of(rest)[0])
-            obj.queue.append(fv)
-            m.trace.append(('post', obj.label))
+            m.do_post(obj, fv)
             return None
         if isinstance(obj, M.StructV) and obj.rec is not None:
             args = m.args_of(rest)
